@@ -403,6 +403,17 @@ def clean_files(storage, indexname, gen, segments):
             pass
 
 
+def _same_deletions(seg1, seg2):
+    # True if the two segment objects (same segment, possibly read from the
+    # TOCs of different generations) have the same set of deleted documents
+    if seg1 is seg2:
+        return True
+    count = seg1.deleted_count()
+    if count != seg2.deleted_count():
+        return False
+    return count == 0 or set(seg1.deleted_docs()) == set(seg2.deleted_docs())
+
+
 class FileIndex(Index):
     def __init__(self, storage, schema=None, indexname=_DEF_INDEX_NAME):
         from whoosh.filedb.filestore import Storage
@@ -528,7 +539,12 @@ class FileIndex(Index):
             # It removes any readers it reuses from the "reusable" dictionary,
             # so later we can close any readers left in the dictionary.
             def segreader(segment):
-                if segment in reusable:
+                # Segments compare equal by ID, but a later commit may have
+                # deleted documents from a segment: the open reader holds the
+                # segment object (and deletion set) of ITS generation, so it
+                # can only be re-used when the deletions are still the same
+                if (segment in reusable
+                    and _same_deletions(reusable[segment].segment(), segment)):
                     r = reusable[segment]
                     del reusable[segment]
                     return r
